@@ -53,6 +53,9 @@ type entry struct {
 	unmarshal func(b []byte) (panicked string, err error)
 	// seeds returns printed encodings of a generated value (mutation seeds)
 	seeds func(sub uint64) [][]byte
+	// decoded runs the property's equations on the value a document decodes to (a value
+	// constructible through the exported API: UnmarshalXML is part of it)
+	decoded func(c *ctx, b []byte, lines []string)
 }
 
 var registry []entry
@@ -287,6 +290,79 @@ func register[T any](s spec[T]) {
 		}
 		return out
 	}
+	// second: a decoded value is a value of the type like any other.  Every writer path
+	// must accept it (no panic, well-formed output) and what it writes must decode to an
+	// equivalent value again: the normal forms the decoder produces are fixed points of
+	// decode∘encode.  This reaches values no generator builds field by field (state only an
+	// unmarshaller sets, values decoded from arbitrary and mutated documents).
+	second := func(c *ctx, lines []string, d *T, from string) {
+		r := c.r
+		if s.valid != nil && !s.valid(d) {
+			return
+		}
+		var texts []string
+		if s.text != nil {
+			texts = s.text(d)
+		} else {
+			collectText(reflect.ValueOf(*d), &texts, 0)
+		}
+		for _, t := range texts {
+			if !xmlValid(t) {
+				return
+			}
+		}
+		inRT := s.canon != nil && (s.rt == nil || s.rt(d))
+		want := ""
+		if inRT {
+			n := *d
+			if s.norm != nil {
+				n = s.norm(n)
+			}
+			want = s.canon(&n)
+		}
+		for _, p := range paths(d) {
+			switch {
+			case p.panicked != "":
+				r.Fail("no-panic", s.name+"/"+p.name+"/"+panicClass(p.panicked), lines,
+					fmt.Sprintf("%s of the value decoded from %s panicked: %s", p.name, from, p.panicked))
+			case p.err != nil:
+				// the decoder accepted something the writer refuses: not a clause of C19
+			default:
+				if err := wellFormed(p.out); err != nil {
+					r.Fail("well-formed", s.name+"/"+p.name, lines,
+						fmt.Sprintf("%s of the value decoded from %s is not well-formed: %v\n%q", p.name, from, err, p.out))
+					continue
+				}
+				if !inRT {
+					continue
+				}
+				d2, pan, err := unmarshal(p.out)
+				switch {
+				case pan != "":
+					r.Fail("unmarshal-total", s.name+"/own-output/"+panicClass(pan), lines,
+						fmt.Sprintf("unmarshalling %q panicked: %s", p.out, pan))
+				case err != nil:
+					r.Fail("roundtrip", s.name+"/decode-error/"+errClass(err), lines,
+						fmt.Sprintf("the value decoded from %s is written by %s as %q, which does not decode: %v", from, p.name, p.out, err))
+				default:
+					if got := s.canon(d2); got != want {
+						r.Fail("roundtrip", s.name+"/"+firstDiff(want, got), lines,
+							fmt.Sprintf("value decoded from %s: %s\nwritten by %s as %q\ndecodes to %s", from, want, p.name, p.out, got))
+					}
+				}
+			}
+		}
+	}
+	e.decoded = func(c *ctx, b []byte, lines []string) {
+		if !s.dec {
+			return
+		}
+		d, pan, err := unmarshal(b)
+		if pan != "" || err != nil || d == nil {
+			return
+		}
+		second(c, lines, d, fmt.Sprintf("%q", b))
+	}
 	var eval func(c *ctx, sub uint64, bad bool, class string, fixed *T, eg *gen)
 	e.one = func(c *ctx, sub uint64, bad bool, class string) { eval(c, sub, bad, class, nil, nil) }
 	e.enum = func(c *ctx, script []int) []int {
@@ -433,6 +509,9 @@ func register[T any](s spec[T]) {
 				continue
 			}
 			got := s.canon(d)
+			if firstName == "" {
+				second(c, lines, d, "the output of "+p.name)
+			}
 			if i == 0 || firstName == "" {
 				firstCanon, firstName = got, p.name
 			} else if got != firstCanon {
